@@ -22,7 +22,7 @@ Definition obs_ok (sp : spec) (o : Z * option Z) : bool :=
 Definition expr_case := (string * nat * list (Z * option Z))%type.
 Definition check_expr (c : expr_case) : bool :=
   let '(e, k, obs) := c in
-  match parse e with
+  match parse_cron e with
   | POk sp => (k =? 0)%nat && forallb (obs_ok sp) obs
   | p => (cls p =? k)%nat
   end.
